@@ -569,6 +569,12 @@ func (t *State) verifyTxRWSets(tx *pb.Transaction) (bool, error) {
 	if err != nil {
 		return false, err
 	}
+	// the contract-originated utxo inputs / outputs declared in the transient bucket are what the re-execution
+	// below reproduces; they have to be the transaction's real inputs / outputs as well
+	if ok, err := isContractUtxoEffective(tx, utxoInput); !ok {
+		t.log.Warn("verifyTxRWSets error, contract utxo not found among the utxo of the tx", "err", err)
+		return false, errors.New("contract utxo not found among the utxo of the tx")
+	}
 	utxoReader := sandbox.NewUTXOReaderFromInput(utxoInput)
 	sandBoxConfig := &contract.SandboxConfig{
 		XMReader:   reader,
@@ -965,6 +971,43 @@ func (t *State) GenRWSetFromTx(tx *pb.Transaction) ([]*kledger.VersionedData, []
 		outputs = append(outputs, &kledger.PureData{Bucket: txOut.Bucket, Key: txOut.Key, Value: txOut.Value})
 	}
 	return inputs, outputs, nil
+}
+
+// isContractUtxoEffective checks that every contract-originated utxo input declared in the transient bucket is an
+// input of the transaction and that the contract-originated outputs are a sub-multiset of its outputs.
+func isContractUtxoEffective(tx *pb.Transaction, conInputs []*protos.TxInput) (bool, error) {
+	var conOutputs []*protos.TxOutput
+	for _, out := range tx.GetTxOutputsExt() {
+		if out.GetBucket() != xmodel.TransientBucket || string(out.GetKey()) != "ContractUtxo.Outputs" {
+			continue
+		}
+		if err := xmodel.UnmsarshalMessages(out.GetValue(), &conOutputs); err != nil {
+			return false, err
+		}
+	}
+	inputs := map[string]bool{}
+	for _, in := range tx.GetTxInputs() {
+		inputs[utxo.GenUtxoKey(in.GetFromAddr(), in.GetRefTxid(), in.GetRefOffset())] = true
+	}
+	for _, in := range conInputs {
+		if !inputs[utxo.GenUtxoKey(in.GetFromAddr(), in.GetRefTxid(), in.GetRefOffset())] {
+			return false, nil
+		}
+	}
+	outKey := func(out *protos.TxOutput) string {
+		return fmt.Sprintf("%s\x00%s\x00%d", out.GetToAddr(), new(big.Int).SetBytes(out.GetAmount()).String(), out.GetFrozenHeight())
+	}
+	outputs := map[string]int{}
+	for _, out := range tx.GetTxOutputs() {
+		outputs[outKey(out)]++
+	}
+	for _, out := range conOutputs {
+		if outputs[outKey(out)] == 0 {
+			return false, nil
+		}
+		outputs[outKey(out)]--
+	}
+	return true, nil
 }
 
 func GetVersion(txIn *protos.TxInputExt) string {
